@@ -47,27 +47,53 @@ Inductive action :=
 | AError (k : ekind).                       (* resolution / parsing failed: error report, status 1 *)
 Record summary := { sm_settings : settings; sm_action : action }.
 
+(* HelpResolver.process_default_commands (its own probe loop since fix 488171f): like DefaultResolver's (pick_default:
+   first parsable default, else the first one), but a ValueError raised while probing - a value on the line that does
+   not convert - counts as "does not parse the line" like CannotParseArgsException; NoSuchOptionException still leaves
+   at once.  Only the help resolver does this: a normal run reports the value error (Resolver.pick_default). *)
+Fixpoint help_pick_default (ds : list bcmd) (toks : list str) (first : option (bcmd * ekind))
+  : res (option (bcmd * res args)) :=
+  match ds with
+  | [] => Ok (match first with Some (b, k) => Some (b, Err k) | None => None end)
+  | d :: r =>
+    match parse (b_fmt d) (b_lenient d) toks with
+    | Ok a => Ok (Some (d, Ok a))
+    | Err CannotParse => help_pick_default r toks (match first with None => Some (d, CannotParse) | s => s end)
+    | Err ValueError => help_pick_default r toks (match first with None => Some (d, ValueError) | s => s end)
+    | Err k => Err k
+    end
+  end.
+(* HelpResolver.create_resolved_command: the command picked is parsed again LENIENTLY (a fresh ResolveResult); since fix
+   488171f a ValueError of that parse no longer escapes - the command is returned with unparsed Args (the help handler
+   reads .command only).  Leniency swallows CannotParse / NoSuchOption; anything else still escapes. *)
+Definition help_lenient (f : fmt) (toks : list str) : res unit :=
+  match parse f true toks with
+  | Ok _ => Ok tt
+  | Err ValueError => Ok tt
+  | Err k => Err k
+  end.
+
 (* HelpResolver.resolve + DefaultResolver.resolve + HelpResolver.create_resolved_command: a leading "help"
-   token is dropped; default (sub-)commands are probed with their own leniency, then the command picked
-   is parsed again leniently (a fresh ResolveResult since the fix of HelpResolver.create_resolved_command) *)
+   token is dropped; default (sub-)commands are probed with their own leniency (help_pick_default), then the command
+   picked is parsed again leniently (help_lenient) *)
 Definition help_target (a : application) (toks : list str) : res (list str) :=
   let toks := match toks with t :: r => if str_eqb t S_help then r else toks | [] => [] end in
   let names := leading toks in
   do w <- walk (named_of (ap_cmds a)) None names;
   match w with
   | Some (b, path) =>
-    do d <- pick_default (defaults_of (b_subs b)) toks None;
+    do d <- help_pick_default (defaults_of (b_subs b)) toks None;
     match d with
-    | Some (dc, r) => do x <- parse (b_fmt dc) true toks; Ok (path ++ [b_name dc])
-    | None => do x <- parse (b_fmt b) true toks; Ok path
+    | Some (dc, r) => do x <- help_lenient (b_fmt dc) toks; Ok (path ++ [b_name dc])
+    | None => do x <- help_lenient (b_fmt b) toks; Ok path
     end
   | None =>
     match names with
     | _ :: _ => Err CannotResolve
     | [] =>
-      do d <- pick_default (defaults_of (ap_cmds a)) toks None;
+      do d <- help_pick_default (defaults_of (ap_cmds a)) toks None;
       match d with
-      | Some (dc, r) => do x <- parse (b_fmt dc) true toks; Ok [b_name dc]
+      | Some (dc, r) => do x <- help_lenient (b_fmt dc) toks; Ok [b_name dc]
       | None => Err CannotResolve
       end
     end
